@@ -18,6 +18,7 @@ import (
 	"encoding/binary"
 	"fmt"
 	"net"
+	"strings"
 	"sync"
 	"testing"
 	"testing/synctest"
@@ -716,10 +717,14 @@ func TestCheck(t *testing.T) {
 		}
 	}
 	// (e) meek_lite client against a scripted raw HTTP peer
-	for _, k := range []string{"ok-empty", "garbage-not-http", "status-500-forever", "status-404-then-ok", "body-larger-than-65536", "content-length-lies-then-close", "drop-mid-headers", "chunked-garbage", "always-65536", "always-65536-app-never-reads"} {
+	for _, k := range []string{"ok-empty", "garbage-not-http", "status-500-forever", "status-404-then-ok", "body-larger-than-65536", "content-length-lies-then-close", "drop-mid-headers", "chunked-garbage", "always-65536", "always-65536-app-never-reads", "huge-body-no-length-then-stall", "huge-body-chunked-then-stall", "huge-body-declared-1GiB-then-stall"} {
 		k := k
 		r.Bubble(fmt.Sprintf("meek/%s", k), func(c *mon.Case) {
-			for i := 0; i < r.Pick(2, 12); i++ {
+			n := r.Pick(2, 12)
+			if strings.HasPrefix(k, "huge-body-") {
+				n = r.Pick(1, 3)
+			}
+			for i := 0; i < n; i++ {
 				meekCase(c, r, k, r.Sub("meek", k, i))
 			}
 		})
